@@ -117,3 +117,21 @@ def paths(s, prefix=""):
             else:
                 out.append((f"{here}[{i}]", m))
     return out
+
+
+def selftest():
+    import datetime as _dt
+    import decimal as _d
+    from ofxtools.models import BANKACCTFROM, BALLIST, BAL
+
+    a = BANKACCTFROM(bankid="1", acctid="2", accttype="CHECKING")
+    b = BANKACCTFROM(bankid="1", acctid="2", accttype="SAVINGS")
+    assert diff(snap(a), snap(a)) is None and diff(snap(a), snap(b)) is not None
+    t = _dt.datetime(2020, 1, 1, tzinfo=_dt.timezone.utc)
+    m1 = BAL(name="n", desc="d", baltype="DOLLAR", value=_d.Decimal("1.0"), dtasof=t)
+    m2 = BAL(name="n", desc="d", baltype="DOLLAR", value=_d.Decimal("1.00"), dtasof=t)
+    assert diff(snap(m1), snap(m2)) is not None, "decimal exponent must matter"
+    assert diff(snap(BALLIST(m1, m2)), snap(BALLIST(m2, m1))) is not None, "list order must matter"
+    m3 = BAL(name="n", desc="d", baltype="DOLLAR", value=_d.Decimal("1.0"), dtasof=t + _dt.timedelta(microseconds=400))
+    assert diff(snap(m1), snap(m3)) is None and diff(snap(m1, exact=True), snap(m3, exact=True)) is not None
+    return True
